@@ -127,6 +127,39 @@ contradicted.
            names cannot be written into a definition file (ASCII pstrings):
            when the writer refuses them the python-side state
            (_all_control_names, _controls) is compared with the model instead.
+
+WHAT KIND OF OBJECT the body receives, and bodies that COMPUTE with it (all
+shards, every function entry - top and wrapped -, every rate group) - the
+class "the signal the body receives is more than something a unit accepts as
+an input": every body used to pass its parameters straight into Out, and a
+unit input multichannel-expands a plain python list, a ChannelList and a bare
+output alike, so the object handed over was never contradicted as long as
+its elements were the right outputs.
+  kind     a scalar parameter is ONE control output (a UGen, not a list), a
+           tuple default of ANY length - one element included - is a
+           ChannelList of control outputs (repair c99b84c):
+           C04/body-signal/object-kind/<array-parameter-is-a-plain-list |
+           array-parameter-is-not-a-channel-list |
+           scalar-parameter-is-not-a-single-output>.
+  operator every parameter is also used the way graph functions use signals:
+           ONE operator / signal method drawn per parameter (probe_op: hash of
+           case, entry, position - the program description and the generator's
+           random stream are untouched) is applied DIRECTLY to it - -v, v.neg(),
+           abs(v), v.squared(), v + c, c + v, v - c, c - v, v * c, c * v,
+           v / c, c / v, v.madd(m, c), v.madd(m), v.madd(add=c), v.min(c),
+           v.max(c), v * v, v + v, (v - c) * m with int and float constants
+           (1 and -1, which the library folds away, included) - and the result
+           goes to a second tagged sink Out(tag + 20000, result).  Decoded
+           bytes: the sink has one wire per slot of the parameter, and each
+           wire, evaluated by value through the BinaryOpUGen / UnaryOpUGen /
+           MulAdd / Sum3 / Sum4 units in front of it (whatever the graph
+           optimiser made of them) at four points, computes the operator of
+           exactly ONE control output, which must be the output at slot + channel
+           (check_wire: class, rate, lag input, special index).  Keys
+           C04/body-signal/operator-on-parameter/<raises | result-is-not-a-signal
+           | sink-missing | channel-count (list repetition / concatenation) |
+           wrong-value | unexpected-unit | not-one-control-output |
+           <rate>/<wire mismatch>>.
 """
 
 from vf.common import iter_cases, case_rng, h64, split, short_tb, tb_sites
@@ -149,7 +182,10 @@ RULE = ("seeded random programs: 0-40 parameters over 1-4 functions (wrap "
         "rejected for its signature and recovered, 18 % with 1-2 wrapped "
         "functions whose body raises after their controls exist (user / "
         "library exception, handled 0-3 wrap levels up, fallback or retry, "
-        "further wraps); shards 'shared': sessions of 2-4 such programs "
+        "further wraps); every body routes each parameter into a tagged "
+        "sink AND applies one of 20 operators / signal methods (-v, v*c, "
+        "c-v, v.madd(m, c), v*v ...) directly to it, routed into a second "
+        "sink; shards 'shared': sessions of 2-4 such programs "
         "(without the failure features) of different signatures built in "
         "one process by constructor (keyword / positional) or decorator and "
         "handed the same rates list / prepend list / variants dict / "
@@ -191,6 +227,14 @@ ASSUMPTIONS = [
     "characters (definition file pstrings); non-ASCII identifiers may be "
     "refused by the writer (then only the python-side state is compared); "
     "names never carry rate information in this port",
+    "a parameter with a tuple default of any length (one element included) "
+    "reaches the body as a sc3 ChannelList, a scalar parameter as a single "
+    "UGen output (repair c99b84c); arithmetic operators with numbers on "
+    "either side, abs(), neg / squared / min / max / madd are defined on "
+    "both and expand per channel; operator units are identified by the "
+    "server's special indices (+ 0, - 1, * 2, / 4, min 12, max 13; neg 0, "
+    "abs 5, squared 12), MulAdd = in * mul + add, Sum3 / Sum4 = sum of "
+    "inputs",
 ]
 MIN_COUNTERS = {
     'quick': {'programs_decoded': 1200, 'sinks_checked': 5000,
@@ -240,7 +284,25 @@ MIN_COUNTERS = {
               'prefix_named_controls_with_lag': 300,
               'prefix_named_controls_in_wrapped_functions': 500,
               'definitions_with_names_differing_only_in_case': 100,
-              'unicode_named_programs': 30},
+              'unicode_named_programs': 30,
+              'parameter_object_kinds_checked': 30000,
+              'operator_probes_checked': 30000,
+              'operator_probes_on_array_parameters': 8000,
+              'operator_probes_on_one_element_arrays': 1000,
+              'operator_probes_on_one_element_arrays/ir': 150,
+              'operator_probes_on_one_element_arrays/tr': 150,
+              'operator_probes_on_one_element_arrays/ar': 150,
+              'operator_probes_on_one_element_arrays/kr': 600,
+              'operator_probes_in_wrapped_functions': 8000,
+              'operator_probes_on_lagged_parameters': 3500,
+              'operator_probes/neg': 1200,
+              'operator_probes/abs': 1200,
+              'operator_probes/mul-number': 2400,
+              'operator_probes/number-mul': 1200,
+              'operator_probes/add-number': 1200,
+              'operator_probes/number-sub': 1200,
+              'operator_probes/madd': 2400,
+              'operator_probes/add-self': 1200},
     'thorough': {'programs_decoded': 60000, 'sinks_checked': 300000,
                  'name_entries_checked': 300000, 'lag_inputs_checked': 30000,
                  'variant_blocks_checked': 10000, 'calls_checked': 50000,
@@ -289,7 +351,25 @@ MIN_COUNTERS = {
                  'prefix_named_controls_with_lag': 6000,
                  'prefix_named_controls_in_wrapped_functions': 10000,
                  'definitions_with_names_differing_only_in_case': 2000,
-                 'unicode_named_programs': 400},
+                 'unicode_named_programs': 400,
+                 'parameter_object_kinds_checked': 300000,
+                 'operator_probes_checked': 300000,
+                 'operator_probes_on_array_parameters': 80000,
+                 'operator_probes_on_one_element_arrays': 10000,
+                 'operator_probes_on_one_element_arrays/ir': 1500,
+                 'operator_probes_on_one_element_arrays/tr': 1500,
+                 'operator_probes_on_one_element_arrays/ar': 1500,
+                 'operator_probes_on_one_element_arrays/kr': 6000,
+                 'operator_probes_in_wrapped_functions': 80000,
+                 'operator_probes_on_lagged_parameters': 35000,
+                 'operator_probes/neg': 12000,
+                 'operator_probes/abs': 12000,
+                 'operator_probes/mul-number': 24000,
+                 'operator_probes/number-mul': 12000,
+                 'operator_probes/add-number': 12000,
+                 'operator_probes/number-sub': 12000,
+                 'operator_probes/madd': 24000,
+                 'operator_probes/add-self': 12000},
 }
 
 
@@ -842,7 +922,9 @@ def eval_prog(acc, H, i, prog, pool=None):
     ns = {}
     st = {'order': [], 'prepend_bad': [], 'prepend_checked': 0,
           'received': {}, 'shape_bad': [], 'rejected': [], 'not_rejected': [],
-          'routed': set(), 'raised': [], 'handled': [], 'lib_accepted': []}
+          'routed': set(), 'raised': [], 'handled': [], 'lib_accepted': [],
+          'kinds_checked': 0, 'kind_bad': [], 'op_raised': [], 'op_unusable': [],
+          'probed': {}}
     pending_prepend = {}
 
     def body(fname, loc):
@@ -885,6 +967,47 @@ def eval_prog(acc, H, i, prog, pool=None):
                 H.iou.Out.ar(tags[key], v)
             else:
                 H.iou.Out.kr(tags[key], v)
+            # WHAT KIND OF OBJECT is the parameter?  A scalar parameter is
+            # one control output, a tuple default of any length (1 included)
+            # is a ChannelList of control outputs - a signal either way
+            st['kinds_checked'] += 1
+            if s.is_array:
+                ok = isinstance(v, H.ugn.ChannelList)
+            else:
+                ok = isinstance(v, H.ugn.UGen) and not isinstance(v, list)
+            if not ok:
+                st['kind_bad'].append(
+                    (p['name'], s.rate, s.size, s.is_array,
+                     type(v).__name__, repr(v)[:120]))
+            # ... and the body applies an operator / signal method DIRECTLY
+            # to it; the result goes to a second tagged sink
+            op = probe_op(i, fname, k, s)
+            if op is not None:
+                try:
+                    res = op[1](v, op[3], op[4])
+                except Exception as e:
+                    st['op_raised'].append(
+                        (p['name'], s.rate, s.size, s.is_array, op[0],
+                         op[3], op[4], f'{type(e).__name__}: {e}'[:160]))
+                else:
+                    try:
+                        flat = res if isinstance(res, list) else [res]
+                        if not flat or not all(
+                                isinstance(e, (H.ugn.UGen, int, float))
+                                for e in flat):
+                            raise TypeError('operator result is not a '
+                                            'signal / list of signals')
+                        if s.rate == 'ar':
+                            H.iou.Out.ar(tags[key] + OP_TAG, res)
+                        else:
+                            H.iou.Out.kr(tags[key] + OP_TAG, res)
+                        st['probed'][key] = op
+                    except Exception as e:
+                        # (v * -3 of a plain list is [], not a signal)
+                        st['op_unusable'].append(
+                            (p['name'], s.rate, s.size, s.is_array, op[0],
+                             op[3], op[4], repr(res)[:120],
+                             f'{type(e).__name__}: {e}'[:160]))
         def do_wrap(child):
             c = funcs[child]
             vals = []
@@ -1107,6 +1230,23 @@ def eval_prog(acc, H, i, prog, pool=None):
              detail=bad)
     for bad in st['shape_bad'][:1]:
         viol('C04/body-signal/channel-count', detail=bad)
+    acc.count('parameter_object_kinds_checked', st['kinds_checked'])
+    for bad in st['kind_bad'][:1]:
+        what = ('array-parameter-is-a-plain-list' if bad[4] == 'list'
+                else 'array-parameter-is-not-a-channel-list') if bad[3] \
+            else 'scalar-parameter-is-not-a-single-output'
+        viol('C04/body-signal/object-kind/' + what, name=bad[0], rate=bad[1],
+             size=bad[2], received_type=bad[4], received=bad[5],
+             all=st['kind_bad'][:6])
+    for bad in st['op_raised'][:1]:
+        viol('C04/body-signal/operator-on-parameter/raises', name=bad[0],
+             rate=bad[1], size=bad[2], array=bad[3], operator=bad[4],
+             constants=bad[5:7], exception=bad[7], all=st['op_raised'][:6])
+    for bad in st['op_unusable'][:1]:
+        viol('C04/body-signal/operator-on-parameter/result-is-not-a-signal',
+             name=bad[0], rate=bad[1], size=bad[2], array=bad[3],
+             operator=bad[4], constants=bad[5:7], result=bad[7],
+             exception=bad[8])
 
     k0 = len(acc.viols)
     go_on = check_decoded(acc, viol, H, d, prog_m, lay, tags, st)
@@ -1327,6 +1467,47 @@ def check_decoded_rest(acc, viol, H, d, prog_m, lay, tags, st):
                      else None)
                 break
 
+    # -- operator sinks: the units between parameter and sink compute the
+    # operator applied to exactly the control output of the slot -----------
+    for key, op in st['probed'].items():
+        s = slots.get(key)
+        if s is None or s.size == 0:
+            continue
+        us = sinks.get(float(tags[key] + OP_TAG), [])
+        if len(us) != 1:
+            viol('C04/body-signal/operator-on-parameter/sink-missing',
+                 name=s.name, operator=op[0], found=len(us))
+            continue
+        wires = us[0].inputs[1:]
+        acc.count('operator_probes_checked')
+        acc.count('operator_probes/' + op[0])
+        acc.count('operator_probes/rate/' + s.rate)
+        if key[0] != prog_m['top']:
+            acc.count('operator_probes_in_wrapped_functions')
+        if s.is_array:
+            acc.count('operator_probes_on_array_parameters')
+            if s.size == 1:
+                acc.count('operator_probes_on_one_element_arrays')
+                acc.count('operator_probes_on_one_element_arrays/' + s.rate)
+        if any(s.lags):
+            acc.count('operator_probes_on_lagged_parameters')
+        if len(wires) != s.size:
+            viol('C04/body-signal/operator-on-parameter/channel-count',
+                 name=s.name, rate=s.rate, array=s.is_array,
+                 operator=op[0], constants=op[3:5],
+                 decoded_wires=len(wires), expected=s.size,
+                 units=[repr(d.units[w[1]]) if w[0] == 'u' else repr(w)
+                        for w in wires][:6])
+            continue
+        for ch, w in enumerate(wires):
+            bad = check_operator_wire(d, s, ch, w, op, acc)
+            if bad:
+                viol(f'C04/body-signal/operator-on-parameter/{bad}',
+                     name=s.name, rate=s.rate, array=s.is_array, channel=ch,
+                     operator=op[0], constants=op[3:5], wire=repr(w),
+                     unit=repr(d.units[w[1]]) if w[0] == 'u' else None)
+                break
+
     # -- variants --------------------------------------------------------
     exp_var = MC.variants(prog_m, lay)
     got_var = dict(d.variants)
@@ -1429,6 +1610,116 @@ def check_call(acc, viol, H, sd, prog, st, raw, d, src, desc, layout_desc,
                                          if u.cls in CTL],
                     's_new': repr(snew[0])[:300]})
     return raw
+
+
+# -- operators applied directly to a parameter ------------------------------
+OP_TAG = 20000          # bus tag of the operator sink = tag of the sink + this
+OP_CONSTS = [2, 3, 7, 10, -3, 2.5, 0.5, 0.25, -0.5, 1, -1, 1.0, -1.0, 4, 100.0]
+# (label, what the body does to the parameter v, the same on a number x)
+OPS = [
+    ('neg', lambda v, c, m: -v, lambda x, c, m: -x),
+    ('neg-method', lambda v, c, m: v.neg(), lambda x, c, m: -x),
+    ('abs', lambda v, c, m: abs(v), lambda x, c, m: abs(x)),
+    ('squared', lambda v, c, m: v.squared(), lambda x, c, m: x * x),
+    ('add-number', lambda v, c, m: v + c, lambda x, c, m: x + c),
+    ('number-add', lambda v, c, m: c + v, lambda x, c, m: c + x),
+    ('sub-number', lambda v, c, m: v - c, lambda x, c, m: x - c),
+    ('number-sub', lambda v, c, m: c - v, lambda x, c, m: c - x),
+    ('mul-number', lambda v, c, m: v * c, lambda x, c, m: x * c),
+    ('mul-number', lambda v, c, m: v * c, lambda x, c, m: x * c),
+    ('number-mul', lambda v, c, m: c * v, lambda x, c, m: c * x),
+    ('div-number', lambda v, c, m: v / c, lambda x, c, m: x / c),
+    ('number-div', lambda v, c, m: c / v, lambda x, c, m: c / x),
+    ('madd', lambda v, c, m: v.madd(m, c), lambda x, c, m: x * m + c),
+    ('madd', lambda v, c, m: v.madd(m, c), lambda x, c, m: x * m + c),
+    ('madd-mul-only', lambda v, c, m: v.madd(m), lambda x, c, m: x * m),
+    ('madd-add-only', lambda v, c, m: v.madd(add=c), lambda x, c, m: x + c),
+    ('min-number', lambda v, c, m: v.min(c), lambda x, c, m: min(x, c)),
+    ('max-number', lambda v, c, m: v.max(c), lambda x, c, m: max(x, c)),
+    ('mul-self', lambda v, c, m: v * v, lambda x, c, m: x * x),
+    ('add-self', lambda v, c, m: v + v, lambda x, c, m: x + x),
+    ('sub-then-mul', lambda v, c, m: (v - c) * m, lambda x, c, m: (x - c) * m),
+]
+# operator units by special index (server's operator numbering)
+BIN_OPS = {0: lambda a, b: a + b, 1: lambda a, b: a - b,
+           2: lambda a, b: a * b, 4: lambda a, b: a / b,
+           12: min, 13: max}
+UN_OPS = {0: lambda a: -a, 5: abs, 12: lambda a: a * a}
+PROBE_XS = (1.75, -2.375, 5.125, -0.3125)
+
+
+def probe_op(case, fname, k, s):
+    """the operator the body applies to the k-th control parameter of
+    function entry fname: (label, on signal, on number, c, m) or None.
+    Drawn from a hash of (case, entry, position): the description of the
+    program (and the generator's random stream) is left alone, the same
+    entry of the same case gets the same operator in every variant of the
+    program (neutral names, without the failure feature, fresh objects)."""
+    if s.size == 0:
+        return None
+    h = h64(('C04-op', case, fname, k))
+    if not s.is_array and h % 100 >= PROBE_SCALAR_PERCENT:
+        return None
+    h //= 100
+    label, on_sig, on_num = OPS[h % len(OPS)]
+    h //= len(OPS)
+    c = OP_CONSTS[h % len(OP_CONSTS)]
+    h //= len(OP_CONSTS)
+    m = OP_CONSTS[h % len(OP_CONSTS)]
+    return (label, on_sig, on_num, c, m)
+
+
+PROBE_SCALAR_PERCENT = 100
+
+
+class _Unexpected(Exception):
+    pass
+
+
+def eval_wire(d, w, x, leaves):
+    """value of a wire when every control output it depends on carries x"""
+    if w[0] == 'c':
+        return d.constants[w[1]]
+    u = d.units[w[1]]
+    if u.cls in ('Control', 'TrigControl', 'AudioControl', 'LagControl'):
+        leaves.add(tuple(w))
+        return x
+    ins = [eval_wire(d, iw, x, leaves) for iw in u.inputs]
+    if u.cls == 'BinaryOpUGen' and u.special in BIN_OPS and len(ins) == 2:
+        return BIN_OPS[u.special](*ins)
+    if u.cls == 'UnaryOpUGen' and u.special in UN_OPS and len(ins) == 1:
+        return UN_OPS[u.special](*ins)
+    if u.cls == 'MulAdd' and len(ins) == 3:
+        return ins[0] * ins[1] + ins[2]
+    if u.cls in ('Sum3', 'Sum4') and len(ins) == int(u.cls[3]):
+        return sum(ins)
+    raise _Unexpected(f'{u.cls}/{u.special}')
+
+
+def check_operator_wire(d, s, ch, w, op, acc):
+    """None or the kind of mismatch: channel ch of the operator sink of
+    parameter slot s must compute op of exactly the control output at slot
+    s.index + ch (the graph optimiser may have rewritten the units: the
+    expression is compared by value at several points, constants as the
+    float32 the file holds)."""
+    label, _, on_num, c, m = op
+    c, m = MC.f32(c), MC.f32(m)
+    leaves = None
+    for x in PROBE_XS:
+        leaves = set()
+        try:
+            got = eval_wire(d, w, x, leaves)
+        except _Unexpected:
+            return 'unexpected-unit'
+        except ZeroDivisionError:
+            return 'wrong-value'
+        exp = on_num(x, c, m)
+        if abs(got - exp) > 1e-5 * max(1.0, abs(exp)):
+            return 'wrong-value'
+    if len(leaves) != 1:
+        return 'not-one-control-output'
+    bad = check_wire(d, s, ch, list(leaves)[0], acc)
+    return f'{s.rate}/{bad}' if bad else None
 
 
 def check_wire(d, s, ch, w, acc):
